@@ -402,9 +402,11 @@ impl store::Cob for Identity {
                 Err(ApplyError::Redacted) => {}
                 Err(other) => return Err(other),
             }
-            debug_assert!(!state.timeline.contains(&id));
-            state.timeline.push(id);
         }
+        // The timeline has one entry per operation, however many actions it carries.
+        debug_assert!(!state.timeline.contains(&id));
+        state.timeline.push(id);
+
         *self = state;
 
         Ok(())
